@@ -112,6 +112,24 @@ def step (sp : Spec) (op : Op) (stamp : Option Gen) : Spec × Out :=
 
 end Spec
 
+/-- `op` is a store under key `k` -/
+def Op.isStoreOf (k : Key) : Op → Bool
+  | .store _ k' _ _ _ _ _ => k' == k
+  | _ => false
+
+/-- `op` invalidates (or supersedes) an entry stored under `k` with trigger set `tr` -/
+def Op.invalidates (k : Key) (tr : List Key) : Op → Bool
+  | .store _ k' _ _ _ _ _ => k' == k
+  | .remove k' => k' == k
+  | .clear => true
+  | .rise t => tr.contains t
+  | _ => false
+
+/-- a store whose allocations all succeed and which sees no memory pressure -/
+def Op.quiet : Op → Prop
+  | .store _ _ _ _ _ _ env => env.copyFails = false ∧ env.lateFails = none ∧ ∀ b ∈ env.lowMem, b = false
+  | _ => True
+
 /-- `a ⊑ b`: everything `a` holds, `b` holds identically (a may hold less) -/
 def Sub (a b : Spec) : Prop := ∀ k e, a k = some e → b k = some e
 
